@@ -103,7 +103,7 @@ CFG = {
         "C10_datum_frame", "C10_datum_never_written", "C10_datum_pure", "C10_datum_history", "C10_pure_with_datums", "C10_step_datums_frame", "C10_datum_panic_is_panic",
         "tie_transform3", "tie_closure", "tie_checkNotWGS", "tie_TransformConsts", "tie_Axis_cases",
         "tie_geom_Point", "tie_geom_MultiPoint", "tie_geom_LineString", "tie_geom_MultiLineString", "tie_geom_MultiPolygon",
-        "tie_geom_GeometryCollection", "tie_geom_Bounds", "tie_geom_nil",
+        "tie_geom_GeometryCollection", "tie_geom_Bounds", "tie_geom_nil", "tie_geom_Polygon", "tie_geom_methods",
         "C10_mem_refines", "C10_mem_refines_flat", "C10_mem_refines_nil", "C10_mem_vertices", "C10_mem_input_kept",
     ]],
     "trusted_base": [
